@@ -344,19 +344,55 @@ def as_z3_bool(x):
 # ----------------------------------------------------------------------------------------
 # SymInt
 
-def mk_int(e, lo, hi):
-    if lo == hi:
+CAP = None   # per-obligation width cap: values whose interval needs more bits are tracked modulo 2**CAP ("inexact")
+HUGE = 1 << 20000
+
+
+def trunc(e, w):
+    if e.size() <= w:
+        return e
+    return z3.Extract(w - 1, 0, e) if CAP is not None else low(e, w)
+
+
+def mk_int(e, lo, hi, inx=False):
+    if lo == hi and not inx:
         return lo
     if lo > hi:
         raise EngineError("empty interval")
     w = need(lo, hi)
+    if inx or (CAP is not None and w > CAP + 1):
+        if CAP is None:
+            raise EngineError("inexact integer without a width cap")
+        if e.size() > CAP:
+            e = z3.Extract(CAP - 1, 0, e)
+        elif e.size() < CAP:
+            if inx:
+                raise EngineError("inexact value narrower than the cap")
+            e = z3.SignExt(CAP - e.size(), e)
+        return SymInt(e, max(lo, -HUGE), min(hi, HUGE), True)
     if w > MAX_WIDTH:
         raise EngineError("integer wider than %d bits" % MAX_WIDTH)
     if e.size() > w:
-        e = low(e, w)
+        e = trunc(e, w)
     elif e.size() < w:
         e = z3.SignExt(w - e.size(), e)
     return SymInt(e, lo, hi)
+
+
+def _ring(f, lo, hi, *ops):
+    """ring / bitwise operation whose low bits depend only on the operands' low bits"""
+    inx = False
+    for p in ops:
+        if isinstance(p, SymInt) and p.inx:
+            inx = True
+    w = need(lo, hi)
+    if inx or (CAP is not None and w > CAP + 1):
+        if CAP is None:
+            raise EngineError("inexact operand without a width cap")
+        w = CAP
+        inx = True
+    args = [bv(p, w) if isinstance(p, int) else p.at(w) for p in ops]
+    return mk_int(f(*args), lo, hi, inx)
 
 
 def _coerce(o):
@@ -371,12 +407,18 @@ def _coerce(o):
 
 
 class SymInt:
-    __slots__ = ("e", "lo", "hi")
+    __slots__ = ("e", "lo", "hi", "inx")
 
-    def __init__(self, e, lo, hi):
-        self.e = e      # signed bit-vector of width >= need(lo, hi)
+    def __init__(self, e, lo, hi, inx=False):
+        self.e = e      # exact: signed bit-vector of width >= need(lo, hi); inexact: value mod 2**CAP (CAP bits)
         self.lo = lo
         self.hi = hi
+        self.inx = inx
+
+    def _exact(self, what):
+        if self.inx:
+            raise EngineError("WidthExceeded: %s needs the true value of an integer tracked modulo 2**%s "
+                              "(raise the obligation's width cap)" % (what, CAP))
 
     # -- representation ------------------------------------------------------------
     @property
@@ -384,7 +426,16 @@ class SymInt:
         return self.e.size()
 
     def at(self, w):
-        return sx(self.e, w)
+        if self.inx:
+            if w != CAP:
+                raise EngineError("inexact value used at width %d != cap" % w)
+            return self.e
+        c = self.e.size()
+        if c == w:
+            return self.e
+        if c < w:
+            return z3.SignExt(w - c, self.e)
+        return trunc(self.e, w)
 
     def __repr__(self):
         return "<SymInt [%d,%d]>" % (self.lo, self.hi) if abs(self.lo) < 1 << 70 and abs(self.hi) < 1 << 70 else "<SymInt wide>"
@@ -399,6 +450,7 @@ class SymInt:
         return cur().concretize(self)
 
     def __index__(self):
+        self._exact("index/int()")
         return cur().concretize(self)
 
     __int__ = __index__
@@ -425,19 +477,13 @@ class SymInt:
         if isinstance(o, int):
             if o == 0:
                 return self
-            lo, hi = self.lo + o, self.hi + o
-            w = need(lo, hi)
-            return mk_int(self.at(w) + bv(o, w), lo, hi)
-        lo, hi = self.lo + o.lo, self.hi + o.hi
-        w = need(lo, hi)
-        return mk_int(self.at(w) + o.at(w), lo, hi)
+            return _ring(lambda a, b: a + b, self.lo + o, self.hi + o, self, o)
+        return _ring(lambda a, b: a + b, self.lo + o.lo, self.hi + o.hi, self, o)
 
     __radd__ = __add__
 
     def __neg__(self):
-        lo, hi = -self.hi, -self.lo
-        w = need(lo, hi)
-        return mk_int(-self.at(w), lo, hi)
+        return _ring(lambda a: -a, -self.hi, -self.lo, self)
 
     def __pos__(self):
         return self
@@ -448,9 +494,7 @@ class SymInt:
             return NotImplemented
         if isinstance(o, int):
             return self.__add__(-o)
-        lo, hi = self.lo - o.hi, self.hi - o.lo
-        w = need(lo, hi)
-        return mk_int(self.at(w) - o.at(w), lo, hi)
+        return _ring(lambda a, b: a - b, self.lo - o.hi, self.hi - o.lo, self, o)
 
     def __rsub__(self, o):
         o = _coerce(o)
@@ -469,19 +513,16 @@ class SymInt:
                 return self
             cs = (self.lo * o, self.hi * o)
             lo, hi = min(cs), max(cs)
-            w = need(lo, hi)
             if o > 0 and o & (o - 1) == 0:
-                k = o.bit_length() - 1
-                return mk_int(z3.Concat(self.at(w - k), bv(0, k)), lo, hi)
-            return mk_int(self.at(w) * bv(o, w), lo, hi)
+                return self << (o.bit_length() - 1)
+            return _ring(lambda a, b: a * b, lo, hi, self, o)
         cs = (self.lo * o.lo, self.lo * o.hi, self.hi * o.lo, self.hi * o.hi)
-        lo, hi = min(cs), max(cs)
-        w = need(lo, hi)
-        return mk_int(self.at(w) * o.at(w), lo, hi)
+        return _ring(lambda a, b: a * b, min(cs), max(cs), self, o)
 
     __rmul__ = __mul__
 
     def __abs__(self):
+        self._exact("abs()")
         if self.lo >= 0:
             return self
         if self.hi <= 0:
@@ -492,13 +533,18 @@ class SymInt:
         return mk_int(z3.If(e < 0, -e, e), 0, hi)
 
     def __invert__(self):
-        return mk_int(~self.e, ~self.hi, ~self.lo)
+        return _ring(lambda a: ~a, ~self.hi, ~self.lo, self)
 
     # floor division / modulo (Python semantics)
     def _divmod(self, o, want):
         o = _coerce(o)
         if o is None:
             return NotImplemented
+        if isinstance(o, int) and o > 0 and o & (o - 1) == 0 and want == "r":
+            return self & (o - 1)
+        self._exact("division")
+        if isinstance(o, SymInt):
+            o._exact("division")
         if isinstance(o, int):
             if o == 0:
                 raise ZeroDivisionError("integer division or modulo by zero")
@@ -595,8 +641,12 @@ class SymInt:
     # -- bit operations ------------------------------------------------------------------
     def lowbits(self, k):
         """bit-vector of width k holding self mod 2**k"""
+        if self.inx:
+            if k > CAP:
+                raise EngineError("WidthExceeded: %d low bits of a value tracked modulo 2**%d" % (k, CAP))
+            return self.e if k == CAP else z3.Extract(k - 1, 0, self.e)
         if k <= self.w:
-            return low(self.e, k)
+            return trunc(self.e, k)
         return z3.SignExt(k - self.w, self.e)
 
     def __and__(self, o):
@@ -615,12 +665,18 @@ class SymInt:
                     e = e & bv(o, k)
                 hi = min(o, self.hi) if self.lo >= 0 else o
                 return mk_int(z3.ZeroExt(1, e), 0, hi)
+            if self.inx:
+                return _ring(lambda a, b: a & b, -HUGE, HUGE, self, o)
             w = max(self.w, need(o, o))
             return mk_int(self.at(w) & bv(o, w), -(1 << (w - 1)), (1 << (w - 1)) - 1)
+        if (self.lo >= 0 and not self.inx) or (o.lo >= 0 and not o.inx):
+            his = [x.hi for x in (self, o) if x.lo >= 0 and not x.inx]
+            hi = min(his)
+            k = max(hi.bit_length(), 1)
+            return mk_int(z3.ZeroExt(1, self.lowbits(k) & o.lowbits(k)), 0, hi)
+        if self.inx or o.inx:
+            return _ring(lambda a, b: a & b, -HUGE, HUGE, self, o)
         w = max(self.w, o.w)
-        if self.lo >= 0 or o.lo >= 0:
-            his = [x.hi for x in (self, o) if x.lo >= 0]
-            return mk_int(self.at(w) & o.at(w), 0, min(his))
         return mk_int(self.at(w) & o.at(w), -(1 << (w - 1)), (1 << (w - 1)) - 1)
 
     __rand__ = __and__
@@ -629,9 +685,11 @@ class SymInt:
         o = _coerce(o)
         if o is None:
             return NotImplemented
+        if isinstance(o, int) and o == 0:
+            return self
+        if self.inx or (isinstance(o, SymInt) and o.inx):
+            return _ring(f, -HUGE, HUGE, self, o)
         if isinstance(o, int):
-            if o == 0:
-                return self
             olo = ohi = o
             w = max(self.w, need(o, o))
             oe = bv(o, w)
@@ -663,7 +721,14 @@ class SymInt:
                 raise ValueError("negative shift count")
             if o == 0:
                 return self
-            return mk_int(z3.Concat(self.e, bv(0, o)), self.lo << o, self.hi << o)
+            lo, hi = self.lo << o, self.hi << o
+            if self.inx or (CAP is not None and need(lo, hi) > CAP + 1):
+                if o >= CAP:
+                    return mk_int(bv(0, CAP), lo, hi, True)
+                return mk_int(z3.Concat(self.lowbits(CAP - o), bv(0, o)), lo, hi, True)
+            return mk_int(z3.Concat(self.e, bv(0, o)), lo, hi)
+        self._exact("shift by a symbolic amount")
+        o._exact("shift amount")
         if o.lo < 0:
             if cur().branch((o < 0).e):
                 raise ValueError("negative shift count")
@@ -673,6 +738,8 @@ class SymInt:
         lo = min(self.lo << o.hi, self.lo << o.lo)
         hi = max(self.hi << o.hi, self.hi << o.lo)
         w = max(need(lo, hi), o.w)
+        if CAP is not None and w > CAP + 1:
+            raise EngineError("WidthExceeded: symbolic shift beyond the width cap")
         return mk_int(self.at(w) << o.at(w), lo, hi)
 
     def __rlshift__(self, base):
@@ -684,6 +751,7 @@ class SymInt:
         o = _coerce(o)
         if o is None:
             return NotImplemented
+        self._exact("right shift")
         if isinstance(o, int):
             if o < 0:
                 raise ValueError("negative shift count")
@@ -712,6 +780,9 @@ class SymInt:
         o = _coerce(o)
         if o is None:
             return NotImplemented
+        self._exact("comparison")
+        if isinstance(o, SymInt):
+            o._exact("comparison")
         if isinstance(o, int):
             olo = ohi = o
         else:
@@ -759,6 +830,7 @@ class SymInt:
 
     # -- misc int API ------------------------------------------------------------------------
     def bit_length(self):
+        self._exact("bit_length")
         a = abs(self)
         if isinstance(a, int):
             return a.bit_length()
@@ -773,6 +845,7 @@ class SymInt:
         from .seq import mk_seq
         if signed:
             raise EngineError("to_bytes(signed=True) on symbolic int")
+        self._exact("to_bytes")
         if self.lo < 0:
             if cur().branch((self < 0).e):
                 raise OverflowError("can't convert negative int to unsigned")
@@ -844,10 +917,7 @@ def ite(c, a, b):
     alo, ahi = (a2, a2) if isinstance(a2, int) else (a2.lo, a2.hi)
     blo, bhi = (b2, b2) if isinstance(b2, int) else (b2.lo, b2.hi)
     lo, hi = min(alo, blo), max(ahi, bhi)
-    w = need(lo, hi)
-    ae = bv(a2, w) if isinstance(a2, int) else a2.at(w)
-    be = bv(b2, w) if isinstance(b2, int) else b2.at(w)
-    return mk_int(z3.If(c.e, ae, be), lo, hi)
+    return _ring(lambda x, y: z3.If(c.e, x, y), lo, hi, a2, b2)
 
 
 def is_sym(x):
@@ -889,7 +959,8 @@ class Explorer:
     symbolic = True
 
     def __init__(self, rlimit=30_000_000, max_paths=100000, max_decisions=600, max_violations=1,
-                 deadline_s=None, known=None, seed=0):
+                 deadline_s=None, known=None, seed=0, cap=None):
+        self.cap = cap
         self.solver = z3.Solver()
         self.rlimit = rlimit
         self.max_paths = max_paths
@@ -1196,8 +1267,9 @@ class Explorer:
 
     # -- driver ----------------------------------------------------------------------------------
     def run(self, fn):
-        global CUR
+        global CUR, CAP
         CUR = self
+        CAP = self.cap
         self.work = [([], None)]
         self.known_used = set()
         self.unknown_samples = []
@@ -1239,6 +1311,7 @@ class Explorer:
                     raise EngineError("SpecFail escaped")
         finally:
             CUR = None
+            CAP = None
         return self
 
 
@@ -1347,6 +1420,79 @@ class ConcreteCtx:
 
     def fresh_name(self, stem):
         return stem
+
+
+class RandomCtx(ConcreteCtx):
+    """concrete candidates for refuting an obligation the solver left undecided (never used to pass one)"""
+
+    def __init__(self, rnd):
+        ConcreteCtx.__init__(self, {})
+        self.rnd = rnd
+        self.drawn = {}
+
+    def _rec(self, name, v):
+        self.drawn[name] = _plain(v)
+        return v
+
+    def sym_int(self, name, lo, hi):
+        r = self.rnd
+        k = r.random()
+        if k < 0.15:
+            v = r.choice([lo, hi, min(hi, max(lo, 0)), min(hi, lo + 1), max(lo, hi - 1)])
+        elif k < 0.4 and hi - lo > 300:
+            v = min(hi, max(lo, r.choice([1, -1]) * r.getrandbits(r.randrange(1, max(2, (hi - lo).bit_length())))))
+        else:
+            v = r.randint(lo, hi)
+        return self._rec(name, v)
+
+    def sym_bool(self, name):
+        return self._rec(name, self.rnd.random() < 0.5)
+
+    def sym_bytes(self, name, n, kind="bytes"):
+        r = self.rnd
+        mode = r.random()
+        if mode < 0.1:
+            b = bytes([r.choice([0, 0xFF, 0x80, 0x7F])] * n)
+        else:
+            b = bytes(r.getrandbits(8) for _ in range(n))
+        self._rec(name, b)
+        return bytearray(b) if kind == "bytearray" else b
+
+    def sym_str(self, name, n, alphabet=None, lo=0, hi=127):
+        r = self.rnd
+        if alphabet is not None:
+            v = "".join(r.choice(alphabet) for _ in range(n))
+        else:
+            v = "".join(chr(r.randint(lo, hi)) for _ in range(n))
+        return self._rec(name, v)
+
+    def choose(self, name, options):
+        options = list(options)
+        v = self.rnd.choice(options)
+        self._rec(name, v)
+        return v
+
+
+def refute_by_candidates(fn, seed, budget_s=20.0, max_tries=400):
+    """-> Violation or None"""
+    import random
+    rnd = random.Random(seed)
+    t0 = time.time()
+    tries = 0
+    while tries < max_tries and time.time() - t0 < budget_s:
+        tries += 1
+        ctx = RandomCtx(rnd)
+        try:
+            fn(ctx)
+        except ViolationFound:
+            return Violation(ctx.failed[-1], dict(ctx.drawn), "found by concrete candidate after solver returned unknown"), tries
+        except PathAbort:
+            continue
+        except EngineError:
+            continue
+        except Exception:
+            continue
+    return None, tries
 
 
 def _unplain(v):
